@@ -67,3 +67,47 @@ wire!(wire_square80, Square80, 456, 4, 48, 116);
 wire!(wire_square88, Square88, 576, 4, 56, 146);
 wire!(wire_square96, Square96, 696, 4, 68, 176);
 wire!(wire_square120, Square120, 1050, 6, 68, 177);
+
+// 144x144 is the only size whose data length (1558) is not a multiple of its block count (10): blocks 0..7 get 156
+// codewords, blocks 8 and 9 get 155.  The full harness (wire_square144) needs more than 80 minutes; this one keeps
+// the first 24 and the last 28 data codewords symbolic and the rest 0 (bounded: not all data vectors), which still
+// exercises the routing of every block's first and last elements, for all their values.
+#[kani::proof]
+#[kani::stub(ecc_block, ecc_block_tag)]
+#[kani::unwind(158)]
+fn wire_square144_ends() {
+    let head: [u8; 24] = kani::any();
+    let tail: [u8; 28] = kani::any();
+    let mut data = [0u8; 1558];
+    let mut i = 0;
+    while i < 24 {
+        data[i] = head[i];
+        i += 1;
+    }
+    let mut i = 0;
+    while i < 28 {
+        data[1558 - 28 + i] = tail[i];
+        i += 1;
+    }
+    let blocks = 10;
+    let k = 62;
+    let out = encode_error(&data, SymbolSize::Square144);
+    assert!(out.len() == blocks * k);
+    let mut b = 0;
+    while b < blocks {
+        let mut acc: u8 = 0;
+        let mut i: u8 = 0;
+        let mut p = b;
+        while p < 1558 {
+            i = i.wrapping_add(1);
+            acc = acc.wrapping_add(data[p].wrapping_mul(i));
+            p += blocks;
+        }
+        let mut j = 0;
+        while j < k {
+            assert!(out[b + j * blocks] == acc.wrapping_add((7 * j) as u8).wrapping_add((k + 1) as u8));
+            j += 1;
+        }
+        b += 1;
+    }
+}
